@@ -250,6 +250,11 @@ def units(tier):
     us.append(Unit("2.decode_progress", M, "decode_progress", {}, 900))
     us.append(Unit("2.encoded_header_progress", M, "encoded_header_progress", {}, 900))
     us.append(Unit("3.memory_limit", M, "memory_limit", {}, 600))
+    # any call sequence terminates – including decoding twice without reset(), which C12's side condition excludes
+    for seq in (["AA", "AE", "EA", "ZA"] if tier == "quick" else ["AA", "AE", "EA", "EE", "ZA", "ZE", "AZ", "AAA", "AZA", "EAZ"]):
+        for (p, f, o) in [("ff", [2], {}), ("ff", [1, 1], {})]:
+            us.append(Unit("4.sequence_terminates[%s,%s]" % (RC.shape_name(p, f, o), seq), "vf.props.c12", "session",
+                           dict(pattern=p, folders=f, opts=o, seq=seq, by_path=False, terminates_only=True), 900))
     return us
 
 
